@@ -8,8 +8,29 @@ package fp
 //@ global let isnum(s) = len(s) > 0 && (s[0] == '-' || digit(s[0]))
 //@ global let numfinal(q) = qis(q, "InValue.NumZero@top", "InValue.NumInt@top", "InValue.NumFrac@top", "InValue.NumExp@top")
 //
+//@ global let rfm(s) = pure(readFloat, 0, s)
+//@ global let rfe(s) = pure(readFloat, 1, s)
+//@ global let rfneg(s) = pure(readFloat, 2, s)
+//@ global let rftr(s) = pure(readFloat, 3, s)
+//@ global let rfp(s) = pure(readFloat, 4, s)
+//@ global let rfok(s) = pure(readFloat, 5, s)
+//@ global let exok(s) = !rftr(s) && pure(atof64exact, 1, rfm(s), rfe(s), rfneg(s))
+//@ global let exval(s) = pure(atof64exact, 0, rfm(s), rfe(s), rfneg(s))
+//@ global let elok(s) = pure(eiselLemire64, 1, rfm(s), rfe(s), rfneg(s))
+//@ global let elval(s) = pure(eiselLemire64, 0, rfm(s), rfe(s), rfneg(s))
+//@ global let elupok(s) = pure(eiselLemire64, 1, rfm(s) + 1, rfe(s), rfneg(s))
+//@ global let elupval(s) = pure(eiselLemire64, 0, rfm(s) + 1, rfe(s), rfneg(s))
+//@ global let elgood(s) = elok(s) && (!rftr(s) || (elupok(s) && feq(elval(s), elupval(s))))
+//@ global let fpwell(s) = rfok(s) && !(rfp(s) > 0 && s[rfp(s)-1] == '.')
+//
 //@ func ParseJSONFloatPrefix(data) (f, n, err)
 //@   input data
+//@   ensures [C04] err == nil ==> fpwell(data) && n == rfp(data)
+//@   ensures [C04] fpwell(data) && exok(data) ==> err == nil && f == exval(data)
+//@   ensures [C04] fpwell(data) && !exok(data) && elgood(data) ==> err == nil && f == elval(data)
+//@   ensures [C04] fpwell(data) && !exok(data) && !elgood(data) ==> (err == nil <==> fpslow(data, rfp(data), "setok") && !fpslow(data, rfp(data), "ovf"))
+//@   ensures [C04] fpwell(data) && !exok(data) && !elgood(data) && err == nil ==> f == fpslow(data, rfp(data), "b")
+//@   ensures [C04] !fpwell(data) ==> err != nil
 //@   sim value limit=10000 init=none
 //@   requires @sim qis(Rq(data, 0), "Before@top") && Rdepth(data, 0) == 0
 //@   ensures @sim [C04,C08,C13] err == nil ==> isnum(data) && accepts(data) && n == endof(data)
@@ -29,6 +50,7 @@ package fp
 //@ global let rmin19(s, k, x) = (rnd(s, k) <= 19 ==> x == rnd(s, k)) && (rnd(s, k) > 19 ==> x == 19)
 //
 //@ func readFloat(data) (mantissa, exp, neg, trunc, p, ok)
+//@   pure
 //@   input data
 //@   sim value limit=10000 init=none num=1
 //@   ensures @sim [C04] ok ==> mantissa == rmant(data, p) && neg == rneg(data, p) && (trunc <==> rnd(data, p) > 19)
@@ -69,12 +91,15 @@ package fp
 //@   loop 2 decreases len(data) - p
 //
 //@ func atof64exact(mantissa, exp, neg) (f, ok)
+//@   pure
 //@   ensures [C19,C20] ghost_alloc == old(ghost_alloc)
 //
 //@ func eiselLemire64(man, exp10, neg) (f, ok)
+//@   pure
 //@   ensures [C19,C20] ghost_alloc == old(ghost_alloc)
 //
 //@ func (*decimal).set(a, data) (ok)
+//@   pure
 //@   input data
 //@   sim value limit=10000 init=none pos=i
 //@   requires @sim qis(Rq(data, 0), "Before@top") && Rdepth(data, 0) == 0
@@ -103,6 +128,7 @@ package fp
 //@   loop 2 decreases len(data) - i
 //
 //@ func (*decimal).floatBits(a) (b, overflow)
+//@   pure
 //@   trusted memory safety and termination of the decimal shifting code (floatBits, Shift, leftShift, rightShift, trim, RoundedInteger) are not proved here: C04 proves these functions lock-step equivalent to Go 1.23.5 strconv's, whose safety is assumed
 //@   requires a != nil && 0 <= a.nd && a.nd <= 800
 //@   assigns *a
